@@ -23,6 +23,7 @@
 EXTENDS Naturals, Integers, Sequences, FiniteSets, TLC
 
 CONSTANTS UsizeBytes,   \* 8 on the sandbox; 4 is checked on the model only
+          TupleRangeConstTrue,  \* TRUE = pinned tree: tuples and ranges declare IS_ZERO_COPY = true unconditionally
           ZstUnit       \* alignment unit reported by zero-sized built-ins:
                         \* 0 on the pinned tree (defect #4), 1 after the fix
 
@@ -119,9 +120,12 @@ AllFields(T) ==
 
 ---------------------------------------------------------------------------
 (* CopyType::Copy = Zero ?  (traits/copy_type.rs, impls, derive 430/479)   *)
+\* kind "hw": a hand-written implementation that *claims* CopyType::Copy = Zero although the type holds a
+\* pointer (tests/test_bad_ser.rs): IS_ZERO_COPY = false is the only thing that gives it away (C17)
+HwT == [k |-> "hw"]
 RECURSIVE IsZC(_)
 IsZC(T) ==
-  CASE T.k \in {"prim", "unit", "rangefull", "phantom", "tuple", "range"} -> TRUE
+  CASE T.k \in {"prim", "unit", "rangefull", "phantom", "tuple", "range", "hw"} -> TRUE
     [] T.k = "array" -> IsZC(T.elem)
     [] T.k \in {"struct", "enum"} -> T.zc
     [] OTHER -> FALSE
@@ -129,7 +133,11 @@ IsZC(T) ==
 (* SerializeInner::IS_ZERO_COPY (impls; derive 438-440)                    *)
 RECURSIVE IsZCConst(_)
 IsZCConst(T) ==
-  CASE T.k \in {"prim", "unit", "rangefull", "phantom", "tuple", "range"} -> TRUE
+  CASE T.k \in {"prim", "unit", "rangefull", "phantom"} -> TRUE
+    [] T.k = "hw" -> FALSE
+    \* impls/tuple.rs and impls/stdlib.rs declare `IS_ZERO_COPY = true` whatever the element is
+    \* (TupleRangeConstTrue = pinned tree); the repaired code propagates the element's constant
+    [] T.k \in {"tuple", "range"} -> IF TupleRangeConstTrue THEN TRUE ELSE IsZCConst(T.elem)
     [] T.k = "array" -> IsZCConst(T.elem)
     [] T.k \in {"struct", "enum"} ->
          HasReprC(T) /\ \A i \in 1..Len(AllFields(T)) : IsZCConst(AllFields(T)[i].ty)
@@ -145,7 +153,7 @@ ZeroCopyMismatch(T) ==
 (* element of a zero-copy block)                                           *)
 RECURSIVE IsCopy(_)
 IsCopy(T) ==
-  CASE T.k \in {"prim", "unit", "rangefull", "phantom"} -> TRUE
+  CASE T.k \in {"prim", "unit", "rangefull", "phantom", "hw"} -> TRUE
     [] T.k \in {"array", "tuple"} -> IsCopy(T.elem)
     [] T.k = "range" -> RangeIsCopy(T.rk) /\ IsCopy(T.elem)
     [] T.k \in {"struct", "enum"} -> T.zc
@@ -179,6 +187,7 @@ EnumPayloadOff(T) == RoundUp(4, EnumUnionAlign(T))
 
 AlignOf(T) ==
   CASE T.k = "prim" -> PrimAlign(T.name)
+    [] T.k = "hw" -> UsizeBytes
     [] T.k \in {"unit", "rangefull", "phantom"} -> 1
     [] T.k \in {"array", "tuple"} -> AlignOf(T.elem)
     [] T.k = "range" -> AlignOf(T.elem)
@@ -188,6 +197,7 @@ AlignOf(T) ==
 
 SizeOf(T) ==
   CASE T.k = "prim" -> PrimSize(T.name)
+    [] T.k = "hw" -> 2 * UsizeBytes
     [] T.k \in {"unit", "rangefull", "phantom"} -> 0
     [] T.k \in {"array", "tuple"} -> T.n * SizeOf(T.elem)
     [] T.k = "range" ->
@@ -212,6 +222,7 @@ FieldOff(fields, j) ==
 RECURSIVE Unit(_)
 Unit(T) ==
   CASE T.k = "prim" -> PrimSize(T.name)
+    [] T.k = "hw" -> UsizeBytes
     [] T.k = "unit" -> ZstUnit          \* impl_prim_type_hash!((), ..) = size_of
     [] T.k \in {"rangefull", "phantom"} -> ZstUnit
     [] T.k \in {"array", "tuple"} -> Unit(T.elem)
@@ -231,6 +242,7 @@ ConstTok(c) == IF c.ck = "bool" THEN << <<"b", c.val>> >> ELSE << <<"u", c.val>>
 RECURSIVE TypeHashPre(_)
 TypeHashPre(T) ==
   CASE T.k = "prim" -> HS(T.name)
+    [] T.k = "hw" -> HS("HW")
     [] T.k = "unit" -> HS("()")
     [] T.k = "rangefull" -> HS("core::ops::RangeFull")
     [] T.k = "string" -> HS("String")
@@ -294,7 +306,7 @@ AlignHashRep(T, n, off) ==
        IN << h[1] \o r[1], r[2] >>
 
 AlignHashAt(T, off) ==
-  CASE T.k \in {"prim", "unit"} -> StdAlignHash(T, off)
+  CASE T.k \in {"prim", "unit", "hw"} -> StdAlignHash(T, off)
     [] T.k \in {"phantom", "rangefull", "string", "boxstr", "bound", "str"} -> << <<>>, off >>
     [] T.k \in {"option", "vec", "boxslice", "slice", "seriter"} ->
          << AlignHashAt(T.elem, 0)[1], off >>
